@@ -17,16 +17,16 @@ type TxGen func(r *kernel.Run, rng *kernel.Rng) *kernel.Tx
 // genSource is the seeded generator: block cadence, faults and transactions. What it produces is recorded by
 // the Run (Run.Recorded) as concrete steps, so a replay never needs the generator.
 type genSource struct {
-	rng        *kernel.Rng
-	nBlocks    int
-	made       int
-	Cadence    func(r *kernel.Run, rng *kernel.Rng) int64
-	TxGens     []TxGen
-	MaxTxs     int
-	PTx        float64
-	BlockHook  func(r *kernel.Run, rng *kernel.Rng, b *kernel.Block, idx int)
-	txInBlock  int
-	txQuota    int
+	rng       *kernel.Rng
+	nBlocks   int
+	made      int
+	Cadence   func(r *kernel.Run, rng *kernel.Rng) int64
+	TxGens    []TxGen
+	MaxTxs    int
+	PTx       float64
+	BlockHook func(r *kernel.Run, rng *kernel.Rng, b *kernel.Block, idx int)
+	txInBlock int
+	txQuota   int
 }
 
 func (g *genSource) NextBlock(r *kernel.Run) *kernel.Block {
